@@ -47,6 +47,15 @@ CLAIMED = {
    "split/join, ascii_*case and every escaping formatter (@sh, @csv, @tsv, @json, @html, @uri) are outside the claim.",
    "Composition: implode works element by element (one push/extend per element), so per-element encoding + decoding + model round trip give the "
    "string identity; the direct round-trip harness (Vec growth in a loop) does not decide and is kept as an attempt. alloc::fmt::format stubbed."),
+ "C14": ("§4 C14",
+   "Bounded model checking of the YAML plain-scalar decision by composition with an INDEPENDENT core-schema recogniser written in the harness: "
+   "(R) the real reader functions parse_int / parse_float accept an ASCII string exactly when the recogniser does (all strings of length 1..3; floats 1..2 "
+   "quick, 3 thorough); (W) a text string the real writer leaves unquoted (must_quote) is not a keyword, integer or float for the recogniser (all ASCII "
+   "strings of length 1..3, 4 thorough). R and W give: a text string written as a plain scalar is read back as the same kind -- so number-, sign- and "
+   "dot-prefixed look-alikes keep their type. Narrow: saphyr's scanner between writer and reader, non-ASCII and longer strings, byte strings, keys, "
+   "special floats, CBOR, TOML, XML, CSV/TSV and --from/--to are outside the claim.",
+   "Stubs: Num::from_str_radix by a digit-validity model, <Num as Neg>::neg by the identity, alloc::fmt::format; the reader's keyword list is restated in the model. "
+   "The direct (uncomposed) harness does not decide and is kept as an attempt."),
  "C15": ("§4 C15",
    "Bounded model checking of operator precedence: the real `impl Op for BinaryOp` is order-isomorphic to the manual's table for all 25 operators (625 pairs) with the "
    "documented associativity; prec_climb::climb groups `a op1 b op2 c` as the table says for one operator per level (49 pairs quick, 144 thorough) "
@@ -76,7 +85,6 @@ NA = {
  "C06": "absence of system calls over all filters and documents is a whole-program call-graph property including third-party decoders; Kani cannot execute FFI or I/O and nothing in this technique family observes the system-call boundary",
  "C07": "print-then-parse needs core::fmt on the write side (formatting is the subject and cannot be stubbed) and hifijson/Bytes on the read side: the 1-byte to_json -> parse_single probe was undecided at 25 min / 7.6 GB; not claimed (DESIGN.md §4)",
  "C11": "fold::fold and funs::range run on boxed result streams with Exn; the same shapes (Results / Exn / Vec) did not decide for cmp_by and flat_map_then within 300 s (DESIGN.md §2.3); not claimed",
- "C14": "the YAML plain-scalar writer/reader probe was undecided at 15 min (big-integer fallback unrolled); CBOR/TOML/XML go through third-party parsers; not claimed",
  "C16": "module loading is file-system calls (canonicalize, read_to_string), a typed arena and the compiler's B-tree maps; no symbolic file system is available",
  "C17": "process-level behaviour (stdout bytes, exit status); Cli::parse is bound to std::env::ArgsOs and cannot be driven symbolically without generalising its type",
  "C18": "quantifies over crash points and file-system states during tempfile/rename/set_permissions; no symbolic file system, and Kani cannot execute the calls",
